@@ -46,7 +46,7 @@ func Validate(l *Loaded, prop string) ([]ValidationResult, error) {
 	// engine side
 	eng := map[string]string{}
 	for _, v := range vs {
-		res := l.Prog.RunPath(v.Fn, nil, smt.NewCtx(), nil, interp.RunOpts{Concrete: map[string]uint64{}})
+		res := l.Prog.RunPath(v.Fn, nil, smt.NewCtx(), nil, interp.RunOpts{Concrete: map[string]uint64{}, Coop: strings.HasSuffix(v.Name, "_coop")})
 		if res.Abort != nil {
 			eng[v.Name] = "ENGINE-ABORT " + res.Abort.String()
 		} else if res.Panic != "" {
